@@ -14,6 +14,8 @@ is a comment line.  See DESIGN.md Appendix C.
   @decreases <expr>                      (after @loop: loop-level)
   @proof[tags] <anchor>                  anchor: first | loop<n>-first | loop<n>-last | before `text` | after `text`
      <verus statements>
+  @assume_pre[tags] <expr>               trait-impl methods cannot carry `requires`: the body starts with `assume(expr)` and
+                                         every ensures becomes `expr ==> ...`; each call site must assert expr (listed assumption)
   @attr <text>                           extra attribute on the fn, e.g. #[verifier::rlimit(50)]
   @end
   @drop <path-prefix>                    drop items whose path starts with this
@@ -51,6 +53,7 @@ class FnSpec:
         self.loops = {}
         self.proofs = []
         self.attrs = []
+        self.assume_pre = []
         self.used = False
 
 
@@ -130,6 +133,8 @@ def parse(paths):
                     fn.requires.append(Clause("requires", tags if tags is not None else fn.props, rest, where))
                 elif d == "ensures":
                     fn.ensures.append(Clause("ensures", tags if tags is not None else fn.props, rest, where))
+                elif d == "assume_pre":
+                    fn.assume_pre.append(Clause("assume_pre", tags if tags is not None else fn.props, rest, where))
                 elif d == "attr":
                     fn.attrs.append(rest.strip())
                 elif d == "loop":
